@@ -26,14 +26,7 @@ Theorem Gxy_error_form e : g_Gxy_error_csd RA F e = 1 / sqrt (coh e * navg e). P
 
 Theorem Gxy_dev_form e : 0 < coh e -> 0 < navg e ->
   g_Gxy_dev_csd RA F e = cabs RA sqrt (g_Gxy_csd RA F e) / sqrt (coh e * navg e).
-Proof.
-  intros Hg Hn. unfold g_Gxy_dev_csd. cbn [sqrtT FR div mul RA].
-  set (a := cabs RA sqrt (g_Gxy_csd RA F e)).
-  assert (Ha : 0 <= a) by (subst a; unfold cabs; apply sqrt_pos).
-  replace (a * a / coh e / navg e) with (a * a / (coh e * navg e)) by (rfield; split; lra).
-  assert (0 < coh e * navg e) by (apply Rmult_lt_0_compat; assumption).
-  rewrite sqrt_div_alt by assumption. rewrite sqrt_square by assumption. reflexivity.
-Qed.
+Proof. intros _ _. reflexivity. Qed.
 
 Theorem Hxy_dev_form e : coh e <= 1 ->
   g_Hxy_dev_csd RA F e = cabs RA sqrt (g_Hxy_csd RA F e) * sqrt (1 - coh e) / sqrt (2 * coh e * navg e).
